@@ -54,12 +54,13 @@ Proof.
   rewrite !bspline_row_Q2R. compute_rows. intro H. injection H as H1 H2. rewrite Q2R_0, Q2R_1 in *. lra.
 Qed.
 
-(* S10 on the rational instance, transported: a concrete point of the gap where the periodic basis raises *)
-Theorem periodic_gap_witness :
-  bspline_row Rfops 0 1 6 3 true (Q2R (20000000001 # 20000000000)) = None.
+(* the former S10 gap point (scaled x = 1 + 5e-10, knots (0,1), n = 6, k = 3): after the repair it gets the right-edge row *)
+Theorem periodic_former_gap_point :
+  bspline_row Rfops 0 1 6 3 true (Q2R (20000000001 # 20000000000)) = bspline_row Rfops 0 1 6 3 true 1
+  /\ bspline_row Rfops 0 1 6 3 true 1 = Some (map Q2R [1 # 6; 2 # 3; 1 # 6; 0; 0; 0]%Q).
 Proof.
   replace 0 with (Q2R 0) by apply Q2R_0. replace 1 with (Q2R 1) by apply Q2R_1.
-  rewrite bspline_row_Q2R. compute_rows. reflexivity.
+  rewrite !bspline_row_Q2R. compute_rows. split; reflexivity.
 Qed.
 
 (* ---------- Examples: the hypotheses of the C03 theorems are satisfiable by non-trivial values ---------- *)
